@@ -871,8 +871,17 @@ FN = {
 }
 
 
+NON_ASCII_AFTER_TAG = vf.re.compile('"@[A-Za-z0-9-]*[^\x00-\x7f]')
+
+
+def outside_model(s):
+    """char::is_alphanumeric is modelled exactly on ASCII only: a non-ASCII character directly after a language tag is
+    outside the model (documented boundary), such strings are not used"""
+    return NON_ASCII_AFTER_TAG.search(s) is not None
+
+
 def eval_fn(ctx, binpath, kind, strings, stream):
-    strings = list(dict.fromkeys(strings))
+    strings = [s for s in dict.fromkeys(strings) if not (kind == "parts" and outside_model(s))]
     if not strings:
         return
     tmpl, shape = FN[kind]
@@ -1079,6 +1088,7 @@ def malformed_lines(rng, n, fmt):
             out.append(" ".join(rng.choice(["<http://e/a>", "_:b", '"x"', '"x"@en', '"5"^^<http://dt>', "a", "<< <http://e/a> <http://e/b> <http://e/c> >>", "<a", 'b"', "<<", ">>", "^^", "é"]) for _ in range(rng.choice([1, 2, 3, 3, 4, 5]))) + rng.choice([" .", ".", " . ", ""]))
         else:
             out.append(ritem(gen_nt_stmt(rng, 5, fmt == "nq")))
+    out = [l for l in out if not outside_model(l)]
     if fmt in ("ttl",):
         # a lone quote token makes clean_turtle_term slice [1..0] and panic: outside C13, kept out of this stream
         out = [l for l in out if not lone_quote_token(l)]
